@@ -462,4 +462,4 @@ def run(ctx):
         part_if_changed(ctx, exe, table, boxes, base)
     finally:
         shutil.rmtree(base, ignore_errors=True)
-        shutil.rmtree(os.path.join(common.CACHE, "box"), ignore_errors=True)
+        shutil.rmtree(clibox.BOXDIR, ignore_errors=True)
